@@ -22,24 +22,29 @@ CONSTANTS P, MaxGates, Emit
 Ops == {"add", "sub", "mul", "neg", "id"}
 Arity(op) == IF op \in {"neg", "id"} THEN 1 ELSE 2
 
-VARIABLES nIn, gates, cur, nInst, series, done
-vars == <<nIn, gates, cur, nInst, series, done>>
+VARIABLES nIn, gates, cur, nInst, series, late, done
+vars == <<nIn, gates, cur, nInst, series, late, done>>
 NoCur == [op |-> "", a |-> <<>>]
-NoSeries == [input |-> 0 - 1, gate |-> 0 - 1]
+NoSeries == [input |-> 0 - 1, gate |-> 0 - 1, pattern |-> "none"]
+\* which instances take the dependent input from the previous instance: all of them, every other one, only the second
+Patterns == {"chain", "alt", "single"}
+Dep(k) == /\ series # NoSeries /\ k > 0
+          /\ (series.pattern = "chain" \/ (series.pattern = "alt" /\ k % 2 = 1) \/ (series.pattern = "single" /\ k = 1))
 
 \* variables are numbered inputs first (0..nIn-1), then gates
 Refs == 0..(nIn + Len(gates) - 1)
-Init == nIn \in 1..2 /\ gates = <<>> /\ cur = NoCur /\ nInst \in {1, 2, 4, 8} /\ series = NoSeries /\ done = FALSE
+\* late: the second input is imported after the first gate was created (the API does not require imports first)
+Init == nIn \in 1..2 /\ gates = <<>> /\ cur = NoCur /\ nInst \in {1, 2, 4, 8} /\ series = NoSeries /\ late \in BOOLEAN /\ done = FALSE
 
 ChooseOp == /\ ~done /\ cur = NoCur /\ Len(gates) < MaxGates
             /\ \E op \in Ops : cur' = [op |-> op, a |-> <<>>]
-            /\ UNCHANGED <<nIn, gates, nInst, series, done>>
+            /\ UNCHANGED <<nIn, gates, nInst, series, late, done>>
 ChooseOperand ==
   /\ cur # NoCur
   /\ \E r \in Refs :
        LET c2 == [cur EXCEPT !.a = Append(cur.a, r)] IN
        IF Len(c2.a) = Arity(c2.op) THEN gates' = Append(gates, c2) /\ cur' = NoCur ELSE cur' = c2 /\ UNCHANGED gates
-  /\ UNCHANGED <<nIn, nInst, series, done>>
+  /\ UNCHANGED <<nIn, nInst, series, late, done>>
 
 Used(v) == \E k \in 1..Len(gates) : \E j \in 1..Len(gates[k].a) : gates[k].a[j] = v
 IsOutput(g) == ~Used(nIn + g - 1)          \* gate g (1-based) is not consumed by another gate
@@ -48,8 +53,8 @@ WellFormed == /\ Len(gates) >= 1 /\ cur = NoCur
 
 \* optionally: input `input` of instance k+1 is the value of output gate `gate` of instance k
 ChooseSeries == /\ ~done /\ WellFormed /\ series = NoSeries /\ nInst > 1
-                /\ \E i \in 0..(nIn - 1), g \in 1..Len(gates) : IsOutput(g) /\ series' = [input |-> i, gate |-> g]
-                /\ UNCHANGED <<nIn, gates, cur, nInst, done>>
+                /\ \E i \in 0..(nIn - 1), g \in 1..Len(gates), pt \in Patterns : IsOutput(g) /\ series' = [input |-> i, gate |-> g, pattern |-> pt]
+                /\ UNCHANGED <<nIn, gates, cur, nInst, late, done>>
 
 (* ---- direct evaluation over F_P ------------------------------------------- *)
 EvalGate(op, x) == CASE op = "add" -> (x[1] + x[2]) % P
@@ -66,13 +71,14 @@ ProbeIn(t, i) == (3 * t + 5 * i + 2) % P
 RECURSIVE Instances(_, _)
 Instances(t, prev) ==
   IF t >= nInst THEN <<>>
-  ELSE LET ins == [i \in 1..nIn |-> IF series # NoSeries /\ series.input = i - 1 /\ t > 0 THEN prev[nIn + series.gate] ELSE ProbeIn(t, i - 1)]
+  ELSE LET ins == [i \in 1..nIn |-> IF series # NoSeries /\ series.input = i - 1 /\ Dep(t) THEN prev[nIn + series.gate] ELSE ProbeIn(t, i - 1)]
            vals == EvalAll(ins, 1)
        IN <<vals>> \o Instances(t + 1, vals)
 
 \* Series takes an OUTPUT variable of the circuit: the dependency must still be on an output when the topology is complete
-Finish == /\ ~done /\ WellFormed /\ (series = NoSeries \/ IsOutput(series.gate)) /\ done' = TRUE /\ UNCHANGED <<nIn, gates, cur, nInst, series>>
-          /\ (IF Emit THEN PrintT("BEH" \o ToJson([nIn |-> nIn, gates |-> gates, nInst |-> nInst, series |-> series,
+LateOK == late => (nIn = 2 /\ \A j \in 1..Len(gates[1].a) : gates[1].a[j] # 1)
+Finish == /\ ~done /\ WellFormed /\ LateOK /\ (series = NoSeries \/ IsOutput(series.gate)) /\ done' = TRUE /\ UNCHANGED <<nIn, gates, cur, nInst, series, late>>
+          /\ (IF Emit THEN PrintT("BEH" \o ToJson([nIn |-> nIn, gates |-> gates, nInst |-> nInst, series |-> series, late |-> late,
                                                    outputs |-> {g \in 1..Len(gates) : IsOutput(g)},
                                                    probe |-> Instances(0, <<>>)])) ELSE TRUE)
 Next == ChooseOp \/ ChooseOperand \/ ChooseSeries \/ Finish
